@@ -57,7 +57,7 @@ WAccounts == {1, 3, 7, 9, 11, 12, 14,   \* assets:bank expenses:food "misc:my wa
               28, 34, 37, 55, 80}      \* generated: a:a  "a:a b" (a:a is a prefix of it)  A:a (a:a in another case)  😀:a  "a b:a 1"
 WComms    == {0, 1, 4, 7, 8}        \* none  $  USD  "A B"  "дуб 😀"
 WPayees   == {1, 2, 3, 7}           \* grocery store | rent | café 😀 bar | a payee of 74 characters
-WTags     == {1, 2, 5, 6, 8, 9}     \* type:food  project:x y  flag:  who:me😀  place:food  area: north
+WTags     == {1, 2, 5, 6, 7, 8, 9}     \* type:food  project:x y  flag:  who:me😀  place:food  area: north
 ValuesW   == { <<5, 0>>, <<100, 0>>, <<1050, 2>>, <<123456, 2>>, <<1234567, 0>>, <<2500, 0>>, <<1, 0>>, <<99, 2>>,
                <<125, 3>>, <<5, 1>>, <<12345678, 4>>, <<7, 8>>, <<123, 12>>, <<99999999, 12>> }
 
